@@ -150,3 +150,28 @@ lemma("revno_and_revision_id_are_inverse", [("n", INT), ("r", REV), ("m", INT)],
 
 undecided("dotted revision numbers (merge_sort: vcsgraph, external) and the other revision specifier kinds")
 undecided("lazily raised RevisionNotPresent from the ancestry iterator (ghosts)")
+
+# ---- the cache invariant survives a change of tip: whoever writes a new tip drops the caches that described the old one
+cls("BzrBranch", fields={"_partial_revision_history_cache": Seq(REV), "_last_revision_info_cache": ANY, "repository": ANY})
+exceptions(InvalidRevisionId="Exception", AppendRevisionsOnlyViolation="Exception")
+assumed("self.lock_write", pure=True, raises={"Exception": None})
+assumed("self.lock_write.__exit__", pure=True, no_raise=True)
+assumed("self.get_append_revisions_only", pure=True, result=BOOL, raises={"Exception": None})
+assumed("self._check_history_violation", pure=True, result=NONE, raises={"AppendRevisionsOnlyViolation": None, "Exception": None})
+assumed("self._run_pre_change_branch_tip_hooks", result=NONE, raises={"Exception": "unchanged"})
+assumed("self._run_post_change_branch_tip_hooks", result=NONE, raises={"Exception": "unchanged"})
+ghost(tip_written=BOOL)
+assumed("self._write_last_revision_info", result=NONE, modifies=["g.tip_written"], ensures=lambda c: c.g.tip_written, raises={"Exception": "unchanged"})
+assumed("self._clear_cached_state", result=NONE, modifies=["self._partial_revision_history_cache", "self._last_revision_info_cache"], no_raise=True,
+        ensures=lambda c: Len(c.self._partial_revision_history_cache) == 0,
+        note="Branch._clear_cached_state empties the revision-history caches (partial history, revno maps, merge-sorted revisions)")
+target("breezy/bzr/branch.py::BzrBranch.set_last_revision_info", params=dict(revno=INT, revision_id=REV),
+       requires=lambda c: Not(c.g.tip_written),
+       modifies=["g.tip_written", "self._partial_revision_history_cache", "self._last_revision_info_cache"],
+       ensures={"caches_of_the_old_tip_are_dropped_whenever_the_tip_is_written": lambda c: And(
+           c.g.tip_written, Len(c.self._partial_revision_history_cache) == 0,
+           lift(c.before("self._write_last_revision_info", "self._clear_cached_state") and c.calls("self._clear_cached_state") == 1))},
+       raises={"Exception": lambda c: Implies(c.g.tip_written, Len(c.self._partial_revision_history_cache) == 0)},
+       canary=lambda c: Not(c.g.tip_written),
+       equivalent_mutants={r"InvalidRevisionId|if not revision_id or not isinstance|_check_history_violation|get_append_revisions_only|_run_p\w+_change_branch_tip_hooks|_last_revision_info_cache = ":
+                           "validation, append-only policy (C21), hooks and the tip cache itself: outside the history-cache invariant"})
